@@ -29,7 +29,7 @@ fn replay_inner(id: &str, hist: &[Json]) -> Json {
     let mut m = Module::default();
     let mut ids: Vec<LocalId> = vec![];
     let mut args: Vec<LocalId> = vec![];
-    let mut uses: Vec<LocalId> = vec![];
+    let mut uses: Vec<(LocalId, String)> = vec![];
     for e in hist {
         match e["op"].as_str().unwrap() {
             "local" => {
@@ -40,7 +40,7 @@ fn replay_inner(id: &str, hist: &[Json]) -> Json {
                 ids.push(l);
             }
             "args" => args = e["ids"].as_array().unwrap().iter().map(|x| ids[x.as_u64().unwrap() as usize]).collect(),
-            "use" => uses.push(ids[e["id"].as_u64().unwrap() as usize]),
+            "use" => uses.push((ids[e["id"].as_u64().unwrap() as usize], e["how"].as_str().unwrap_or("get").to_string())),
             _ => {}
         }
     }
@@ -48,8 +48,26 @@ fn replay_inner(id: &str, hist: &[Json]) -> Json {
     let mut b = FunctionBuilder::new(&mut m.types, &params, &[]);
     {
         let mut body = b.func_body();
-        for u in &uses {
-            body.local_get(*u).drop();
+        for (u, how) in &uses {
+            let push = |b: &mut InstrSeqBuilder, t: ValType| match t {
+                ValType::I64 => drop(b.i64_const(1)),
+                ValType::F32 => drop(b.f32_const(1.0)),
+                ValType::F64 => drop(b.f64_const(1.0)),
+                _ => drop(b.i32_const(1)),
+            };
+            match how.as_str() {
+                "set" => {
+                    push(&mut body, m.locals.get(*u).ty());
+                    body.local_set(*u);
+                }
+                "tee" => {
+                    push(&mut body, m.locals.get(*u).ty());
+                    body.local_tee(*u).drop();
+                }
+                _ => {
+                    body.local_get(*u).drop();
+                }
+            }
         }
     }
     let f = b.finish(args.clone(), &mut m.funcs);
@@ -58,7 +76,7 @@ fn replay_inner(id: &str, hist: &[Json]) -> Json {
     let am = absmod::project(&out).unwrap_or_default();
     let func = am.funcs.iter().find(|f| !f.imported);
     let outlocals: Vec<String> = func.map(|f| f.locals.clone()).unwrap_or_default();
-    let outuses: Vec<i32> = func.map(|f| f.ops.iter().filter(|o| o.o == "LocalGet").map(|o| o.local).collect()).unwrap_or_default();
+    let outuses: Vec<i32> = func.map(|f| f.ops.iter().filter(|o| o.o == "LocalGet" || o.o == "LocalSet" || o.o == "LocalTee").map(|o| o.local).collect()).unwrap_or_default();
     let names: Vec<Json> = am.names.iter().filter(|n| n.kind == "local").map(|n| json!([n.sub, n.name])).collect();
     json!({"id": id, "source": format!("locals:{}", id), "outcome": "ok", "hist": hist, "valid": absmod::validate(&out).is_ok(),
            "outlocals": outlocals, "outuses": outuses, "names": names})
